@@ -639,6 +639,14 @@ class ContainerValue:
             condition = condition & cnds.ConditionLike.from_spec({spec_k: spec_v})
 
         label = spec.pop("label", None)
+        if cls != MapOrListValue:
+            # only a map-or-list value takes these two arguments:
+            for arg, arg_cond in (
+                ("list_condition", list_condition),
+                ("map_condition", map_condition),
+            ):
+                if not arg_cond.is_null:
+                    spec[arg] = arg_cond
         if spec:
             raise ValueError(
                 f"Unknown arguments to container item specification: {list(spec.keys())}"
